@@ -10,6 +10,7 @@ _reg('jit', ['J1'])
 _reg('recip', ['R1', 'R2'])
 _reg('api', ['H1', 'D2', 'I7'])
 _reg('life', ['H6', 'H7', 'H3'])
+_reg('sshash', ['S4', 'D1'])
 
 PROPS = {
  'C11': dict(level='other', lemmas=['B1', 'B2', 'B3', 'B4', 'B5'],
@@ -31,7 +32,7 @@ PROPS = {
  'C18': dict(level='other', lemmas=['R1', 'R2'],
    files=['src/reciprocal.c', 'src/reciprocal.h', 'src/asm/randomx_reciprocal.inc', 'src/common.hpp', 'src/bytecode_machine.cpp', 'src/jit_compiler_x86.cpp', 'src/dataset.cpp', 'src/superscalar.cpp'],
    explanation='TODO', trusted=['Euclidean characterisation of unsigned division'], outside=[]),
- 'C08': dict(level='translation_validation', lemmas=['D2'],
+ 'C08': dict(level='translation_validation', lemmas=['D2', 'D1', 'S4'],
    files=['src/randomx.cpp', 'src/dataset.cpp', 'src/dataset.hpp', 'src/superscalar.cpp', 'src/jit_compiler_x86.cpp', 'src/jit_compiler_x86_static.S', 'src/vm_interpreted_light.cpp'],
    explanation='TODO', trusted=[], outside=[]),
  'C13': dict(level='other', lemmas=['H1'],
@@ -45,5 +46,8 @@ PROPS = {
    explanation='TODO', trusted=[], outside=[]),
  'C03': dict(level='other', lemmas=['H3', 'H1', 'H6'],
    files=['src/randomx.cpp', 'src/virtual_machine.cpp', 'src/virtual_machine.hpp', 'src/vm_compiled_light.cpp', 'src/vm_interpreted_light.cpp', 'src/vm_compiled.cpp', 'src/dataset.hpp', 'src/aes_hash.cpp'],
+   explanation='TODO', trusted=[], outside=[]),
+ 'C09': dict(level='translation_validation', lemmas=['S4'],
+   files=['src/superscalar.cpp', 'src/superscalar.hpp', 'src/superscalar_program.hpp', 'src/blake2_generator.cpp', 'src/dataset.cpp', 'src/jit_compiler_x86.cpp', 'src/reciprocal.c', 'doc/specs.md'],
    explanation='TODO', trusted=[], outside=[]),
 }
